@@ -43,11 +43,11 @@ RLM = 'valjean.cosette.rlist'
 
 def check(ctx):
     analyzer = depgraph.make_analyzer(ctx.program)
-    depgraph.check_own(ctx, analyzer)
-    depgraph.check_dg_pure(ctx, analyzer)
-    depgraph.check_pair(ctx)
-    depgraph.check_pair_shift(ctx)
-    depgraph.check_swap_table(ctx)
+    ctx.run(depgraph.check_own, analyzer)
+    ctx.run(depgraph.check_dg_pure, analyzer)
+    ctx.run(depgraph.check_pair)
+    ctx.run(depgraph.check_pair_shift)
+    ctx.run(depgraph.check_swap_table)
     ctx.stats['functions_analysed'] = analyzer.functions_analysed
     ctx.stats['call_sites_resolved'] = analyzer.calls_resolved
 
